@@ -9,8 +9,9 @@ PROPERTY = "C06"
 READY = True
 THEOREMS = [
     "C06.order_irrefl", "C06.order_asymm", "C06.order_trans", "C06.order_weak", "C06.order_total",
-    "C06.order_numeric", "C06.order_num_lt_word", "C06.order_prefix", "C06.order_release_lt_master", "C06.order_sorted",
-    "C06.tag_release", "C06.tag_saved_version", "C06.tag_ignored",
+    "C06.order_numeric", "C06.order_num_lt_word", "C06.order_prefix", "C06.order_separators",
+    "C06.order_split_at_separator", "C06.order_split_skip", "C06.order_split_word", "C06.order_release_lt_master",
+    "C06.order_sorted", "C06.tag_release", "C06.tag_saved_version", "C06.tag_ignored", "C06.match_is_substring",
     "C06.report_branches", "C06.no_nonmatching", "C06.only_matching", "C06.under_minimal_build",
     "C06.exactly_once", "C06.not_merged_exact", "C06.at_most_once", "C06.report_total", "C06.report_total_single",
 ]
@@ -19,7 +20,12 @@ OBSOLETE_PERIOD = 30 * G.DAY          # the window of the property statement ("3
 RULE = ("random commit graphs (6-16 commits, 8% extra roots, 30% merges incl. octopus, random parent order, 30% build tags, "
         "40% matching messages), 1-5 refs with heads anywhere (coinciding heads, heads inside other branches, non-release "
         "refs, master/main, numeric-aware name traps, names whose numbers are a proper prefix of another name's: "
-        "release/1.2 vs release/1.2.1); tags are sent as names: build tags of release lines, master-style tags + VERSION "
+        "release/1.2 vs release/1.2.1, names whose numbers differ in width after each separator '/', '.', '-', '_': "
+        "release/abc-9.1 vs release/abc-10.1); the search text is a dimension (40%: texts with leading/trailing/inner blanks, "
+        "tab, line break, other case, regex-special characters, empty) and the commit messages embed it or near misses of it "
+        "(stripped, case changed, a character less, blanks folded, after a line break) - the model and the oracle decide "
+        "independently what matches; build numbers with a component 9998/9999/10000 or 8887/8888/8889 (next to the pseudo "
+        "builds' numbers; the reply shows what the printed report titles a build); tags are sent as names: build tags of release lines, master-style tags + VERSION "
         "file, and on 25% of the random cases other tags (not build tags: wrong prefix/suffix/no number) and build tags in "
         "unusual spellings (leading zeros, branch parts that only look like a release line); commit times anywhere in 0..30 days, not tied to the graph (heads older than the "
         "builds of lower-sorted branches by more than a day in ~25% of the cases; the window's edge values; 5% outside the "
@@ -30,7 +36,9 @@ TRUSTED = ["tests/mock_git.py (synthetic git objects fed to the real ak.ghist co
            "order of remote.refs (sorted by name, as mock_git and GitPython list them) — decides ties of equal sort keys only",
            "re / int() on tag and branch names (ASCII names without line breaks: \\d = 0-9, int() = decimal value)",
            "the project-specific reading of the version file (tests-style `_read_saved_build_num_from_file`: major.minor)"]
-ASSUMPTIONS = ["commit times inside the 30-day window (quantifier of the property; Hist.InWindow in the theorems: no commit is more than "
+ASSUMPTIONS = ["no build tag has the number of a pseudo build (9999.9999.9999, 8888.8888.8888): the report recognises the pseudo "
+               "builds by their number",
+               "commit times inside the 30-day window (quantifier of the property; Hist.InWindow in the theorems: no commit is more than "
                "_OBSOLETE_BRANCH_CUTOFF_PERIOD younger than the head of a release/master branch). Outside it the code drops "
                "branches as obsolete; the model does the same and is compared with the code there, the oracle does not judge",
                "ASCII ref names without whitespace or '+' (int() of a chunk succeeds iff it is a run of decimal digits)",
@@ -47,10 +55,19 @@ def _report_text(rg):
     for rb in rg.branches:
         bl = []
         for b in rb.get_rbuilds_list():
-            kind = "M" if b.build_type == 2 else "N"
+            # what the printed report shows for the build (ReportFormatter._mk_buildnum_descr / _gen_rbuild_descr):
+            # the title "- not merged -", "- not built -" or the number, decided from the build number
+            if b.build_num.is_fake_not_merged():
+                kind, bn = "M", (9999, 9999, 9999, 9999)
+            elif b.build_num.is_fake_not_built():
+                kind, bn = "N", (8888, 8888, 8888, 8888)
+            else:
+                kind, bn = "N", b.build_num.as_tuple()
+            if (b.build_type == 2) != (kind == "M") or (b.rcommit is None) != (kind == "M"):
+                kind = "X"          # the title disagrees with what the build is
             bc = str(b.rcommit.commit.intid - 1) if b.rcommit is not None else "-"
             cs = [str(r.commit.intid - 1) for r in b.get_printable_rcommits()]
-            bl.append("%s:%s:%s:%s" % (kind, G.show_bn(b.build_num.as_tuple()), bc, ",".join(cs) or "-"))
+            bl.append("%s:%s:%s:%s" % (kind, G.show_bn(bn), bc, ",".join(cs) or "-"))
         out.append("%s=%s" % (enc_str(str(rb.branch_name)), ";".join(bl)))
     return "ok " + " ".join(out)
 
@@ -58,11 +75,12 @@ def _report_text(rg):
 def run_real(h):
     k = G.repo_classes()
     from ak.ghist import ReposCollection
-    repo = G.mock_repo(h, "r", TEXT)
+    text = h.get("text", TEXT)
+    repo = G.mock_repo(h, "r", text)
     rc = ReposCollection({"r": k["StdTestRepo"]("r", repo, G.REMOTE)})
-    data = rc.make_reports_data(TEXT)
+    data = rc.make_reports_data(text)
     # the collection can be asked again: the second answer must not depend on the first call
-    again = rc.make_reports_data(TEXT)
+    again = rc.make_reports_data(text)
     if _report_text(again[0][1]) != _report_text(data[0][1]):
         raise SecondCallDiffers(_report_text(again[0][1]))
     return data[0][1]
@@ -91,25 +109,57 @@ def impl(case):
 _REL = re.compile(r"release/(\d+(?:\.\d+)*)$")
 
 
+_SEPS = re.compile(r"[/._-]")
+
+
+def spec_key(name):
+    """sort items of the statement's "numeric-aware name": the name cut at '/', '.', '-', '_'; a piece of digits counts
+    as a number.  None for names the statement does not cover (pieces mixing digits and letters, blanks, '+')"""
+    key = []
+    for piece in _SEPS.split(name):
+        if piece == "":
+            continue
+        if piece.isdigit() and piece.isascii():
+            key.append(int(piece))
+        elif piece.isalpha() and piece.isascii():
+            key.append(piece)
+        else:
+            return None
+    return key
+
+
+def spec_cmp(a, b):
+    """-1 / 1, or None when the statement does not decide (a number against a word, equal items)"""
+    for x, y in zip(a, b):
+        if isinstance(x, int) != isinstance(y, int):
+            return None
+        if x != y:
+            return -1 if x < y else 1
+    if len(a) == len(b):
+        return None
+    return -1 if len(a) < len(b) else 1          # a proper prefix first
+
+
 def spec_order(refs):
     """release/master refs in the order of the statement (numeric-aware, a name that is a proper prefix of another one
     first, master last), or None when the statement does not decide the order of the given names (numerically equal
-    names like 1.2 / 01.2, two master refs, exotic names)"""
+    names like 1.2 / 01.2, two master refs, names mixing digits and letters in one piece, a number against a word)"""
+    import functools
     rel, masters = [], []
     for n, hd in refs:
         if n in ("master", "main"):
             masters.append(("master", hd))
         elif n.startswith("release/"):
-            m = _REL.match(n)
-            if not m:
+            k = spec_key(n)
+            if k is None:
                 return None
-            rel.append((tuple(int(x) for x in m.group(1).split(".")), n, hd))
+            rel.append((k, n, hd))
     if len(masters) > 1:
         return None
     for a, b in itertools.combinations(rel, 2):
-        if a[0] == b[0]:
+        if spec_cmp(a[0], b[0]) is None:
             return None
-    rel.sort()          # tuples of numbers: numeric, and (1, 2) < (1, 2, 1)
+    rel.sort(key=functools.cmp_to_key(lambda a, b: spec_cmp(a[0], b[0])))
     return [(n, hd) for _, n, hd in rel] + masters
 
 
@@ -187,6 +237,9 @@ def check_report(h, report):
         builds = {c for c in A if (tagged[c] or c == head) and c not in prevanc}
         listed, nm_listed = {}, []
         for kind, bn, bc, cs in rep.get(name, []):
+            if kind == "X":
+                return "title: the report titles the build at %s of %s as %s" % (
+                    bc, name, "'- not merged -'" if bc is not None else "a real build although it is the pseudo build")
             if kind == "M":
                 nm_listed += cs
                 if bc is not None:
@@ -266,9 +319,53 @@ def add_times(rng, h, mode=None):
     return h
 
 
-def gen_hist(rng, n, nbr, exotic=False, prefix=False, times=None):
+WIDTH_FAMILIES = [          # numbers of different width after every separator the code knows
+    ["release/abc-9.1", "release/abc-10.1", "release/abc-10.10", "release/abc-100.2"],
+    ["release/5.9", "release/5.10", "release/5.100", "release/10.1"],
+    ["release/v_9", "release/v_10", "release/v_9_10", "release/v_10_9"],
+    ["release/9/x", "release/10/x", "release/10/y", "release/100/a"],
+    ["release/2024-9", "release/2024-10", "release/2024-10-3", "release/2024-9-12"],
+]
+SEARCH_TEXTS = ["BUG-1 ", " BUG-1", "BUG 1", " ", "", "a.b", "fix(", "[x]+", "Bug-7", "BUG-7\t", "x\ny", "*", "BUG-1  2",
+                "\\d+", "BUG-7 "]
+SPECIAL_NUMS = [9998, 9999, 10000, 8887, 8888, 8889]
+
+
+def near_misses(text):
+    """strings that look like the text but do not contain it"""
+    t = text
+    cands = [t.strip(), t.strip() + "0", t.lower(), t.upper(), t.swapcase(), t[:-1], t[1:], t.replace(" ", ""),
+             t.replace(" ", "  "), t.replace(".", "x"), t.replace("(", ""), t.replace("\t", " "), t.replace("\n", " "),
+             " ".join(t.split()), t.replace("-", "_"), "BUG-70", "bug"]
+    return [c for c in cands if text not in c]
+
+
+def add_messages(rng, h, text):
+    """commit messages: the text embedded in different surroundings (also after a line break) for the commits meant to
+    match, near misses of the text (stripped, other case, one character less, blanks folded …) for the others"""
+    miss = near_misses(text)
+    for i, c in enumerate(h["commits"]):
+        if c["m"] or not miss and text == "":
+            c["msg"] = rng.choice(["", "fix ", "x", "line one\n", "  "]) + text + rng.choice(["", " done", "0", "\nmore", " "])
+        else:
+            near = rng.choice(miss) if miss and rng.random() < 0.7 else "other"
+            c["msg"] = rng.choice(["", "fix ", "see\n"]) + near + rng.choice(["", " c%d" % i, "\n"])
+        if c["msg"] == "":
+            c["msg"] = "c%d" % i if text != "" and text not in "c%d" % i else c["msg"]
+    h["text"] = text
+    return h
+
+
+def special_bn(rng, nb):
+    x = rng.choice(SPECIAL_NUMS)
+    k = rng.randrange(3)
+    return [[x, 1, 100 + nb, 100 + nb], [1, x, 100 + nb, 100 + nb], [1, 1, x, x]][k]
+
+
+def gen_hist(rng, n, nbr, exotic=False, prefix=False, times=None, width=False, text=None):
     commits = []
     nb = 0
+    used = set()
     for i in range(n):
         if i == 0 or rng.random() < 0.08:
             ps = []
@@ -282,12 +379,23 @@ def gen_hist(rng, n, nbr, exotic=False, prefix=False, times=None):
             for _ in range(1 if rng.random() < 0.85 else 2):
                 nb += 1
                 style = rng.random()
-                if style < 0.8:
+                if style < 0.7:
                     tags.append([1, 1, 100 + nb, 100 + nb])
-                elif style < 0.9:
+                elif style < 0.8:
                     tags.append([rng.choice([1, 2, 10]), rng.choice([0, 2, 10]), 100 - nb, 100 - nb])
+                elif style < 0.9:
+                    tags.append(special_bn(rng, nb))      # a component equal or next to the pseudo builds' 9999 / 8888
                 else:
                     tags.append([77, 3, 100 + nb, 100 + nb])          # build_N_master_success + VERSION file
+            # one VERSION file per commit, one commit per build number
+            ms = [t for t in tags if t[0] >= G.MASTER_STYLE_FROM]
+            tags = [t for t in tags if t[0] < G.MASTER_STYLE_FROM or t[:2] == ms[0][:2]]
+            uniq = []
+            for t in tags:
+                if tuple(t) not in used:
+                    used.add(tuple(t))
+                    uniq.append(t)
+            tags = uniq
         commits.append({"p": ps, "t": tags, "m": 1 if rng.random() < 0.4 else 0})
     names = list(MAIN_NAMES)
     rng.shuffle(names)
@@ -301,8 +409,15 @@ def gen_hist(rng, n, nbr, exotic=False, prefix=False, times=None):
         names = list(PREFIX_NAMES)
         rng.shuffle(names)
         names = names[:nbr]
+    if width:
+        names = list(rng.choice(WIDTH_FAMILIES)) + (["master"] if rng.random() < 0.3 else [])
+        rng.shuffle(names)
+        names = names[:max(2, nbr)]
     refs = [[nm, rng.randrange(n)] for nm in names]
-    return add_times(rng, {"commits": commits, "refs": refs}, times)
+    h = add_times(rng, {"commits": commits, "refs": refs}, times)
+    if text is None:
+        text = TEXT if rng.random() < 0.6 else rng.choice(SEARCH_TEXTS)
+    return add_messages(rng, h, text)
 
 
 def mk_case(h, kind, noise=None):
@@ -340,6 +455,8 @@ def gen_cases(rng, tier):
         yield mk_case(gen_hist(rng, 4 + k % 9, 2 + k % 4, exotic=True), "exotic-names")
     for k in range(500 if tier == "quick" else 8000):
         yield mk_case(gen_hist(rng, 3 + k % 9, 2 + k % 4, prefix=True), "prefix-names")
+    for k in range(500 if tier == "quick" else 8000):
+        yield mk_case(gen_hist(rng, 3 + k % 9, 2 + k % 3, width=True), "width-names")
     for k in range(100 if tier == "quick" else 2000):
         yield mk_case(gen_hist(rng, 17 + k % 14, 1 + k % 5), "bigger")
     if tier == "thorough":
@@ -369,7 +486,16 @@ def corpus():
     # sort items of release/1.2 are a proper prefix of those of release/1.2.1: release/1.2 is the lower-sorted branch
     h3 = {"commits": [{"p": [], "t": [], "m": 1}, {"p": [0], "t": [], "m": 1}],
           "refs": [["release/1.2", 0], ["release/1.2.1", 1]]}
-    return [mk_case(G.with_times(h), "corpus-head-inside-lower-branch"),
+    # the search text ends with a blank: "BUG-10" does not contain it
+    h4 = {"commits": [{"p": [], "t": [], "m": 1, "msg": "BUG-1 fix"}, {"p": [0], "t": [], "m": 0, "msg": "BUG-10 fix"},
+                      {"p": [1], "t": [], "m": 0, "msg": "fix BUG-1"}],
+          "refs": [["release/1.2", 2]], "text": "BUG-1 "}
+    # a real build whose number has a 9999 in it is not the 'not merged' pseudo build
+    h5 = {"commits": [{"p": [], "t": [[1, 0, 9998, 9998]], "m": 1}, {"p": [0], "t": [[1, 0, 9999, 9999]], "m": 1},
+                      {"p": [1], "t": [[1, 0, 10000, 10000]], "m": 1}, {"p": [0], "t": [], "m": 0}],
+          "refs": [["release/1.0", 2], ["master", 3]]}
+    return [mk_case(G.with_times(h4), "corpus-text-with-blank"), mk_case(G.with_times(h5), "corpus-build-9999"),
+            mk_case(G.with_times(h), "corpus-head-inside-lower-branch"),
             mk_case(h2, "corpus-head-older-than-lower-builds"), mk_case(G.with_times(h3), "corpus-prefix-names")]
 
 
@@ -380,8 +506,12 @@ def shrink(case):
     meta = dict(case.get("meta", {}))
 
     def mk(h2):
-        return {"lines": ["rep " + G.enc_hist(h2)], "meta": meta}
+        return {"lines": ["rep " + G.enc_hist(dict(h2, text=h["text"]))], "meta": meta}
     n = len(h["commits"])
+    # a plainer search text (messages that contained the text get the new one, the others lose it)
+    if h["text"] != TEXT:
+        cs2 = [dict(c, msg=("fix %s" % TEXT) if c["m"] else "other") for c in h["commits"]]
+        yield {"lines": ["rep " + G.enc_hist({"commits": cs2, "refs": h["refs"], "text": TEXT})], "meta": meta}
     # drop a ref
     for i in range(len(h["refs"])):
         if len(h["refs"]) > 1:
@@ -419,7 +549,7 @@ def shrink(case):
     # simplify a commit
     for k in range(n):
         c = h["commits"][k]
-        for alt in ([dict(c, t=[], xt=[], names=None)] if c["t"] or c.get("xt") else []) + ([dict(c, m=0)] if c["m"] else []) + \
+        for alt in ([dict(c, t=[], xt=[], names=None)] if c["t"] or c.get("xt") else []) + ([dict(c, m=0, msg="other")] if c["m"] else []) + \
                    [dict(c, p=c["p"][:j] + c["p"][j + 1:]) for j in range(len(c["p"]))]:
             yield mk({"commits": h["commits"][:k] + [alt] + h["commits"][k + 1:], "refs": h["refs"]})
 
@@ -483,7 +613,9 @@ LEVEL_TEXT = ("All clauses of the property are kernel-checked Lean theorems abou
               "(under_minimal_build), a matching commit contained in some build of the branch is listed (exactly_once) and at most "
               "once anywhere in the branch (at_most_once), 'not merged' lists exactly the matching commits of lower-sorted branches "
               "not reachable from the head (not_merged_exact), branches are read in a strict weak (total) order, numeric-aware, a "
-              "proper prefix first, release below master (order_*), and the report shows them reversed without empty branches "
+              "proper prefix first, names cut at exactly the separators read from the source (order_separators, order_split_*), "
+              "release below master (order_*), a commit matches exactly when the search text occurs in its message as it is "
+              "(match_is_substring: the model computes the match flags from text and messages), and the report shows them reversed without empty branches "
               "(report_branches). The model has the commit times and the obsolete-branch test of RGraph.__init__; the report "
               "theorems carry the hypothesis Hist.InWindow, stated with the _OBSOLETE_BRANCH_CUTOFF_PERIOD the translator "
               "reads from ak/ghist.py, under which no branch is dropped (rgraph_nw); report_total needs no window. "
